@@ -679,6 +679,16 @@ impl Prover {
             return Err(err_msg!("Invalid Signature correctness proof"));
         }
 
+        // e must lie in [2^LARGE_E_START, 2^LARGE_E_START + 2^LARGE_E_END_RANGE): for an e
+        // outside of this interval the response for e in every later proof is not hidden
+        // by its blinding value and links the presentations of the holder.
+        let e_offset = p_cred_sig.e.sub(&LARGE_E_START_VALUE)?;
+        if e_offset.is_negative() || e_offset.num_bits()? as usize > LARGE_E_END_RANGE {
+            return Err(err_msg!(
+                "Invalid Signature: e is outside of the prescribed interval"
+            ));
+        }
+
         if let Some((ref attr, _)) = cred_values.attrs_values.iter().find(|(attr, value)| {
             (value.is_known() || value.is_hidden()) && !p_pub_key.r.contains_key(attr.as_str())
         }) {
